@@ -611,6 +611,11 @@ class Harness:
         return self._op_body()
 
     def _op_body(self):
+        at = self.cfg.get("attempt_timeout")
+        if at and at > 1.0e9 and not self.is_async:
+            # "no timeout" spelled as a huge number of seconds: the attempt runs in a worker thread and must still be running when the
+            # runner starts waiting for it (a result that is already there is returned without any wait), so it takes a few real ms
+            env._REAL["sleep"](0.004)
         rec = self.cur
         i = self.count("op")
         rec.trace.append(("op", i + 1, self.now()))
